@@ -1,0 +1,24 @@
+//go:build verif
+
+// Package verifhook provides named schedule points used by external
+// verification tooling. Without the "verif" build tag every call is a no-op.
+package verifhook
+
+import "sync/atomic"
+
+type handlerFn func(name string, keys []string)
+
+var handler atomic.Value
+
+// SetHandler installs the function invoked at every schedule point.
+func SetHandler(f func(name string, keys []string)) {
+	handler.Store(handlerFn(f))
+}
+
+// Point reports that the calling goroutine reached the named point; the
+// installed handler may block to park the goroutine there.
+func Point(name string, keys ...string) {
+	if h, ok := handler.Load().(handlerFn); ok && h != nil {
+		h(name, keys)
+	}
+}
